@@ -616,6 +616,9 @@ Inductive ev :=
 | VDrop                             (* the pool is dropped *)
 | VExit (t : nat)                   (* thread t finished *)
 | VDead (t : nat)                   (* t accessed a dead task block (harness liveness marker) *)
+| VSpawnFail                        (* a thread creation was refused: the `expect` in [spawn] panics under the
+                                       lock and the caller leaves broadcast before anything was handed out *)
+| VAbortEnd (sl : list (option nat)) (* the harness caught that panic; the slots of the aborted broadcast *)
 | VWrongTask (t : nat)              (* a call on thread t ran with a state that is not the captured one *)
 | VBadVec                           (* the result vector is not "old elements ++ n+1 new slots within capacity" *)
 | VOther.                           (* an event the pool never produces *)
@@ -746,6 +749,21 @@ Definition mstep (pan : list (nat * nat)) (m : mon) (e : ev) : mon :=
          m_dropped := m_dropped m; m_rets := m_rets m;
          m_fail := (if m_dropped m then m_fail m else F_exit :: m_fail m) |}
   | VDead _ => failm m F_dead
+  | VSpawnFail =>
+      (* Sequence-level treatment of a refused thread creation (the transition system does not have it): the
+         broadcast ends here, it is accounted as finished, and it is judged only by "nothing was handed out and
+         nothing was called".  The later broadcasts are judged as usual, on the threads that exist by then. *)
+      let held := existsb (fun p => Nat.eqb (snd p) (m_b m)) (m_serv m) in
+      let called := negb (Nat.eqb (length (filter (fun c => Nat.eqb (fst (fst c)) (m_b m)) (m_calls m))) 0) in
+      let f1 := if m_open m then m_fail m else F_foreign :: m_fail m in
+      let f2 := if held then F_touch :: f1 else f1 in
+      let f3 := if called then F_once :: f2 else f2 in
+      {| m_b := m_b m; m_n := m_n m; m_open := false; m_rc := 0; m_zero := true; m_serv := m_serv m;
+         m_calls := m_calls m; m_spawned := m_spawned m; m_spawned0 := m_spawned0 m; m_exited := m_exited m;
+         m_dropped := m_dropped m; m_rets := S (m_rets m); m_fail := f3 |}
+  | VAbortEnd sl =>
+      if m_open m then failm m F_foreign
+      else if PoolM.slots_eqb sl (repeat None (S (m_n m))) then m else failm m F_results
   | VWrongTask _ => failm m F_once
   | VBadVec => failm m F_results
   | VOther => failm m F_foreign
